@@ -148,7 +148,7 @@ def run(ctx):
     quick = ctx.tier == "quick"
     ctx.level = "exploration"
     nproc = _nproc(ctx)
-    stride = 32 if quick else 1
+    stride = 64 if quick else 1
     nrec = 4000 if quick else 80000
     conc_g, conc_m = 16, (10000 if quick else 100000)
 
@@ -164,6 +164,8 @@ def run(ctx):
     jobs = [("MC_Uuid_sub.cfg", dict(VF_SHARD=i, VF_NSHARD=nproc, VF_STRIDE=stride, VF_SEED=ctx.seed), "gen_sub_%d" % i)
             for i in range(nproc)]
     jobs += [("MC_Uuid_canonsub.cfg", dict(VF_SHARD=i, VF_NSHARD=nproc), "gen_canonsub_%d" % i) for i in range(nproc)]
+    jobs += [("MC_Uuid_wide.cfg", dict(VF_SHARD=i, VF_NSHARD=nproc, VF_WSTRIDE=8 if quick else 1, VF_SEED=ctx.seed),
+              "gen_wide_%d" % i) for i in range(nproc)]
     jobs += [("MC_Uuid_ins.cfg", {}, "gen_ins"), ("MC_Uuid_canon.cfg", {}, "gen_canon"), ("MC_Uuid_v1.cfg", {}, "gen_v1"),
              ("MC_Uuid_time.cfg", {}, "gen_time")]
     cases, gen_states = [], 0
@@ -258,7 +260,14 @@ def run(ctx):
     p = os.path.join(ctx.tmp, "vec_random.ndjson")
     rc, out = vf.run_gotest(ctx, gbin, "^TestVfC19Record$", env={"VF_VECTORS": p, "VF_N": nrec})
     _summary(out, "uuid record")
-    recs = vf.read_ndjson(vp) + vf.read_ndjson(p)
+    pc = os.path.join(ctx.tmp, "vec_printconc.ndjson")
+    npc = 40 if quick else 1000
+    rc, out = vf.run_gotest(ctx, gbin, "^TestVfC19PrintConcurrent$", env={"VF_VECTORS": pc, "VF_G": 8, "VF_M": npc})
+    _summary(out, "uuid concurrent print")
+    pcrecs = vf.read_ndjson(pc)
+    if len(pcrecs) != 2 * 8 * npc:
+        raise vf.Inconclusive("concurrent print driver recorded %d of %d observations" % (len(pcrecs), 2 * 8 * npc))
+    recs = vf.read_ndjson(vp) + vf.read_ndjson(p) + pcrecs
     if len(recs) < 100:
         raise vf.Inconclusive("only %d recorded vectors" % len(recs))
     for n, r in enumerate(recs):
